@@ -124,6 +124,13 @@ def check_property(prop, tier, base_seed, runs=None, workers=None, wall_cap=None
         if not ok:
             print("HARNESS-ERROR determinism self-test failed: %s" % detail)
             exit_code = 2
+    # 2b. reach probes that must not be stuck at zero over a thorough run (DESIGN 8.3)
+    if tier == "thorough" and not runs:
+        from .registry import REQUIRED_PROBES
+        missing = [p for p in REQUIRED_PROBES.get(prop, ()) if not any(k.startswith(p) and v > 0 for k, v in total["probes"].items())]
+        if missing:
+            print("HARNESS-ERROR reach probes never hit in a thorough run: %s" % ", ".join(missing))
+            exit_code = 2
     # 3. violations: minimise, write replay, confirm in a fresh process
     reported = []
     for v in total["violations"]:
@@ -217,7 +224,7 @@ def write_evidence_file(prop, tier, base_seed, total, reported, known_lines, det
     os.makedirs(os.path.join(VERIF, "evidence"), exist_ok=True)
     path = os.path.join(VERIF, "evidence", "%s.json" % prop)
     with open(path, "w") as fp:
-        json.dump(doc, fp, indent=1, sort_keys=True, default=str)
+        json.dump(doc, fp, indent=1, default=str)
         fp.write("\n")
 
 
